@@ -43,6 +43,7 @@ const (
 	oPluck2
 	oListNew
 	oListAdd
+	oObserve
 )
 
 type oop struct {
@@ -111,11 +112,13 @@ func (cfg c06Cfg) label(d oop) string {
 		return "l0=NewList()"
 	case oListAdd:
 		return "l0.Add(" + cfg.refName(d.V) + ")"
+	case oObserve:
+		return r + "<call every observer>"
 	}
 	return "?"
 }
 
-var oKindNames = []string{"NewObject", "NewObject", "NewObjectFrom", "Set", "Set", "Set", "Set-odd", "Set-odd", "Set-nonstring-key", "Set-nonstring-key", "Unset", "Unset", "Unset", "Clear", "Merge", "Pluck", "Pluck", "Pluck", "NewList", "Add"}
+var oKindNames = []string{"NewObject", "NewObject", "NewObjectFrom", "Set", "Set", "Set", "Set-odd", "Set-odd", "Set-nonstring-key", "Set-nonstring-key", "Unset", "Unset", "Unset", "Clear", "Merge", "Pluck", "Pluck", "Pluck", "NewList", "Add", "observe"}
 
 func c06Ops(cfg c06Cfg) func(w W) []oop {
 	return func(w W) []oop {
@@ -147,6 +150,9 @@ func c06Ops(cfg c06Cfg) func(w W) []oop {
 				continue
 			}
 			vals := valuesFor(m)
+			if w.Hist(m)&model.HObservedSinceMut == 0 {
+				ops = append(ops, oop{K: oObserve, R: r})
+			}
 			ops = append(ops, oop{K: oSet0, R: r}, oop{K: oUnset0, R: r}, oop{K: oClear, R: r})
 			for k := 0; k < nk; k++ {
 				_, has := m.M[cfg.keys[k]]
@@ -221,6 +227,7 @@ func c06Apply(cfg c06Cfg) func(w W, d oop) (string, string) {
 					return fmt.Sprintf("%s did not return the receiver", name()), "return/" + kind
 				}
 				mod(m)
+				w.Mutated(m)
 			}
 			return "", ""
 		}
@@ -238,6 +245,7 @@ func c06Apply(cfg c06Cfg) func(w W, d oop) (string, string) {
 				if o.KeyExists(leadKey) && (!had || !sameReal(w, o.Get(leadKey), old)) {
 					m.M[leadKey] = leadM // the implementation applied the leading pair before panicking
 				}
+				w.Mutated(m)
 			}
 			return "", ""
 		}
@@ -286,6 +294,9 @@ func c06Apply(cfg c06Cfg) func(w W, d oop) (string, string) {
 			}
 			w.Regs[d.Dst] = nm
 			return "", ""
+		}
+		if d.K == oObserve {
+			return w.Observe(w.Regs[d.R])
 		}
 		switch d.K {
 		case oNew:
@@ -399,7 +410,7 @@ func c06System(cfg c06Cfg) *bfs.System[W, oop] {
 		Check:    func(w W) (string, string) { return w.Check() },
 		Key:      func(w W) string { return w.Key() },
 		MaxDepth: cfg.depth,
-		Describe: func(w W) string { return w.Describe() }, Touch: func(w W) { w.Touch() },
+		Describe: func(w W) string { return w.Describe() },
 	}
 }
 
